@@ -117,6 +117,8 @@ impl Iterator for ReadDir<'_> {
 
 /// Returns an iterator over a directory, logging fatal errors on any error.
 pub fn read_dir(path: &Path) -> Result<ReadDir<'_>, Failed> {
+    #[cfg(routinator_verif)]
+    verif_fail("fatal.read_dir", path)?;
     match fs::read_dir(path) {
         Ok(iter) => Ok(ReadDir { path, iter }),
         Err(err) => {
@@ -136,6 +138,8 @@ pub fn read_dir(path: &Path) -> Result<ReadDir<'_>, Failed> {
 ///
 /// Returns `None` if the repository doesn’t exist.
 pub fn read_existing_dir(path: &Path) -> Result<Option<ReadDir<'_>>, Failed> {
+    #[cfg(routinator_verif)]
+    verif_fail("fatal.read_existing_dir", path)?;
     match fs::read_dir(path) {
         Ok(iter) => Ok(Some(ReadDir { path, iter })),
         Err(err) if err.kind() == io::ErrorKind::NotFound => Ok(None),
@@ -154,6 +158,8 @@ pub fn read_existing_dir(path: &Path) -> Result<Option<ReadDir<'_>>, Failed> {
 
 /// Creates all directories leading to the given directory or logs an error.
 pub fn create_dir_all(path: &Path) -> Result<(), Failed> {
+    #[cfg(routinator_verif)]
+    verif_fail("fatal.create_dir_all", path)?;
     fs::create_dir_all(path).map_err(|err| {
         error!(
             "Fatal: failed to create directory {}: {}",
@@ -185,6 +191,8 @@ pub fn create_parent_all(path: &Path) -> Result<(), Failed> {
 
 /// Removes a directory tree.
 pub fn remove_dir_all(path: &Path) -> Result<(), Failed> {
+    #[cfg(routinator_verif)]
+    verif_fail("fatal.remove_dir_all", path)?;
     if let Err(err) = fs::remove_dir_all(path) {
         if err.kind() != io::ErrorKind::NotFound {
             error!(
@@ -204,6 +212,8 @@ pub fn remove_dir_all(path: &Path) -> Result<(), Failed> {
 ///
 /// Ignores if the file doesn’t exist.
 pub fn remove_file(path: &Path) -> Result<(), Failed> {
+    #[cfg(routinator_verif)]
+    verif_fail("fatal.remove_file", path)?;
     if let Err(err) = fs::remove_file(path) {
         if err.kind() != io::ErrorKind::NotFound {
             error!(
@@ -221,6 +231,8 @@ pub fn remove_file(path: &Path) -> Result<(), Failed> {
 
 /// Removes a file or a directory tree.
 pub fn remove_all(path: &Path) -> Result<(), Failed> {
+    #[cfg(routinator_verif)]
+    verif_fail("fatal.remove_all", path)?;
     if path.is_dir() {
         remove_dir_all(path)
     }
@@ -236,6 +248,8 @@ pub fn remove_all(path: &Path) -> Result<(), Failed> {
 ///
 /// See ´std::fs::rename`` for the various ramifications.
 pub fn rename(source: &Path, target: &Path) -> Result<(), Failed> {
+    #[cfg(routinator_verif)]
+    verif_fail("fatal.rename", source)?;
     fs::rename(source, target).map_err(|err| {
         error!(
             "Fatal: failed to move {} to {}: {}",
@@ -252,6 +266,8 @@ pub fn rename(source: &Path, target: &Path) -> Result<(), Failed> {
 ///
 /// Errors out if the file doesn’t exist.
 pub fn open_file(path: &Path) -> Result<File, Failed> {
+    #[cfg(routinator_verif)]
+    verif_fail("fatal.open_file", path)?;
     File::open(path).map_err(|err| {
         error!(
             "Fatal: failed to open file {}: {}",
@@ -266,6 +282,8 @@ pub fn open_file(path: &Path) -> Result<File, Failed> {
 
 /// Opens a file if it exists.
 pub fn open_existing_file(path: &Path) -> Result<Option<File>, Failed> {
+    #[cfg(routinator_verif)]
+    verif_fail("fatal.open_existing_file", path)?;
     match File::open(path) {
         Ok(file) => Ok(Some(file)),
         Err(err) if err.kind() == io::ErrorKind::NotFound => Ok(None),
@@ -286,6 +304,8 @@ pub fn open_existing_file(path: &Path) -> Result<Option<File>, Failed> {
 ///
 /// Create a file if it does not exist, and truncates it if it does.
 pub fn create_file(path: &Path) -> Result<File, Failed> {
+    #[cfg(routinator_verif)]
+    verif_fail("fatal.create_file", path)?;
     File::create(path).map_err(|err| {
         error!(
             "Fatal: failed to open file {}: {}",
@@ -302,6 +322,8 @@ pub fn create_file(path: &Path) -> Result<File, Failed> {
 ///
 /// Errors out if the file cannot be opened for reading or reading fails.
 pub fn read_file(path: &Path) -> Result<Vec<u8>, Failed> {
+    #[cfg(routinator_verif)]
+    verif_fail("fatal.read_file", path)?;
     fs::read(path).map_err(|err| {
         error!(
             "Fatal: failed to read file {}: {}",
@@ -319,6 +341,8 @@ pub fn read_file(path: &Path) -> Result<Vec<u8>, Failed> {
 /// Returns `Ok(None)` if the file doesn’t exist.  Errors out if the file
 /// fails to be opened for reading or reading fails.
 pub fn read_existing_file(path: &Path) -> Result<Option<Vec<u8>>, Failed> {
+    #[cfg(routinator_verif)]
+    verif_fail("fatal.read_existing_file", path)?;
     match fs::read(path) {
         Ok(some) => Ok(Some(some)),
         Err(err) if err.kind() == io::ErrorKind::NotFound => Ok(None),
@@ -340,6 +364,8 @@ pub fn read_existing_file(path: &Path) -> Result<Option<Vec<u8>>, Failed> {
 /// Errors out if the file cannot be opened for writing or writing fails.
 /// If the file exists, overwrites the current content.
 pub fn write_file(path: &Path, contents: &[u8]) -> Result<(), Failed> {
+    #[cfg(routinator_verif)]
+    verif_fail("fatal.write_file", path)?;
     fs::write(path, contents).map_err(|err| {
         error!(
             "Fatal: failed to write file {}: {}",
@@ -419,3 +445,19 @@ impl fmt::Display for IoErrorDisplay {
     }
 }
 
+
+//------------ verif_fail ----------------------------------------------------
+
+/// Fails the operation if the verification harness says so.
+#[cfg(routinator_verif)]
+fn verif_fail(site: &'static str, path: &Path) -> Result<(), Failed> {
+    if crate::verif::buggify(site) {
+        error!(
+            "Fatal: injected I/O failure in {} for {}", site, path.display()
+        );
+        Err(Failed)
+    }
+    else {
+        Ok(())
+    }
+}
